@@ -54,6 +54,8 @@ def build(stack, net, **cfg):
         return PooledClient(H1, socket_module=sm, **cfg)
     if stack == "hash1":
         return HashClient([H1], socket_module=sm, **cfg)
+    if stack == "hash1d":  # one failure marks the only server dead (for dead_timeout = 60 s)
+        return HashClient([H1], socket_module=sm, retry_attempts=0, **cfg)
     if stack == "hash2":
         return HashClient([H1, H2], socket_module=sm, **cfg)
     if stack == "hash2p":
